@@ -8,4 +8,4 @@ Extraction Language OCaml.
 Extraction "model.ml" dec_op dec_msg dec_req dec_cfg dec_verdict enc_msg enc_req enc_verdict
   diff_trace pi_full P_none run pi_C14 P_C14
   pi_C02 P_C02 pi_C05 P_C05 pi_C06 P_C06 pi_C07 P_C07 pi_C10 P_C10 pi_C12 P_C12 pi_C13 P_C13 pi_C16 P_C16
-  lift diff_trace_t pi_C01 P_C01 pi_C03 P_C03 pi_C04 P_C04 pi_C11 P_C11 pi_C17 P_C17 pi_C18 P_C18 run_P_C17_pair no_skip skip_limit.
+  lift diff_trace_t pi_C01 P_C01 pi_C03 P_C03 pi_C04 P_C04 pi_C11 P_C11 pi_C17 P_C17 pi_C18 P_C18 run_P_C17_pair no_skip skip_limit tpi_C01 tpi_C05 pi_none.
